@@ -161,7 +161,7 @@ pub fn cases_c15(tier: &str, seed: u64) -> Vec<Case> {
                 let mut base = base_scenario(prog, leader, &mask, &inputs, Strategy::Script(vec![]), 0x15000 + pi as u128);
                 base.gate_msgs = gate_msgs;
                 let steps = pilot_steps(&base);
-                let stride = if thorough { 1 } else if n == 2 { 1 } else { 4 };
+                let stride = if thorough { 1 } else if n == 2 { 1 } else { 2 };
                 for k in (0..=steps + 1).filter(|k| k % stride == 0 || *k < 8) {
                     for party in 0..n {
                         let mut sc = base.clone();
@@ -176,7 +176,7 @@ pub fn cases_c15(tier: &str, seed: u64) -> Vec<Case> {
     let heavy = server::heavy_program();
     for party in 0..2 {
         for leader in 0..2 {
-            for rep in 0..if thorough { 6 } else { 2 } {
+            for rep in 0..if thorough { 8 } else { 4 } {
                 let mask = vec![true, true];
                 let inputs = vec![3 + rep as u64, 200];
                 let mut sc = base_scenario(&heavy, leader, &mask, &inputs, Strategy::Script(vec![]), 0x15f00 + rep as u128);
@@ -258,7 +258,7 @@ pub fn cases_c16(tier: &str, seed: u64) -> Vec<Case> {
                     let mask = vec![true; n];
                     // both arrival orders and delivery orders: small DFS by scripts 0/1 prefixes + random
                     let mut strategies: Vec<Strategy> = vec![Strategy::Script(vec![]), Strategy::Script(vec![1]), Strategy::Script(vec![0, 1]), Strategy::Script(vec![1, 1]), Strategy::Script(vec![1, 0, 1])];
-                    for r in 0..if thorough { 12 } else { 3 } {
+                    for r in 0..if thorough { 16 } else { 8 } {
                         strategies.push(Strategy::Random(seed ^ (r * 7919 + pi as u64 * 31 + f as u64)));
                     }
                     for (si, st) in strategies.into_iter().enumerate() {
@@ -330,7 +330,7 @@ pub fn cases_c17(tier: &str, seed: u64) -> Vec<Case> {
     let mut v = vec![];
     let progs = server::programs();
     let two: Vec<&Program> = progs.iter().filter(|p| p.parties == 2).collect();
-    let n_cases = if thorough { 1500 } else { 110 };
+    let n_cases = if thorough { 2500 } else { 400 };
     for i in 0..n_cases {
         let batch = 1 + (i % 8).min(if thorough { 7 } else { 4 });
         let concurrency = 1 + i % 3;
